@@ -391,4 +391,74 @@ pub fn run(rep: &mut Rep) {
     for (k, case) in cases.iter().enumerate() {
         run_case(rep, &mut c, case, &mut rng, k % 4);
     }
+    // tree histories that include closing and reopening a persistent tree between registration and proving
+    #[cfg(any(feature = "pm", feature = "full"))]
+    {
+        let n = if thorough { 24 } else { 3 };
+        let base = std::env::temp_dir().join(format!("c01-persist-{}", std::process::id()));
+        for k in 0..n {
+            let case = &cases[(k * 7 + 1) % cases.len()];
+            let path = format!("{}/db{k}", base.display());
+            let cfg = format!(r#"{{"tree_config": {{"path": "{path}", "temporary": false, "cache_capacity": 50000000}}}}"#);
+            let open = |cfg: &str| match catch(|| RLN::new(20, Cursor::new(cfg.to_string()))) {
+                Ok(Ok(r)) => Some(r),
+                _ => None,
+            };
+            let Some(mut r) = open(&cfg) else {
+                rep.inconclusive("cannot open a persistent instance".to_string());
+                continue;
+            };
+            let mut m = Model::new(20, poseidon_h, Fr::from(0u64));
+            let rc = rate_commitment_ref(&case.secret, &Fr::from(case.limit));
+            // some history before and after the registration, including deletions
+            let mut writes: Vec<(usize, Fr)> = vec![(case.index, rc)];
+            for j in 0..4 {
+                let i = if j % 2 == 0 { (case.index ^ (1 << j)) % (1 << 20) } else { rng.gen_range(0..1usize << 20) };
+                if i != case.index {
+                    writes.push((i, rand_fr(&mut rng)));
+                }
+            }
+            for (i, v) in &writes {
+                let _ = r.set_leaf(*i, Cursor::new(enc_fr(v)));
+                m.set(*i, *v);
+            }
+            if writes.len() > 2 {
+                let d = writes[2].0;
+                let _ = r.delete_leaf(d);
+                m.delete(d);
+            }
+            if r.flush().is_err() {
+                rep.inconclusive("flush failed".to_string());
+                continue;
+            }
+            drop(r);
+            let Some(r2) = open(&cfg) else {
+                rep.violation("persistent:reopen-failed", json!({"case": case.label}));
+                continue;
+            };
+            let mut pc = Ctx { rln: r2, model: m, node: None };
+            if pc.root() != pc.model.root() {
+                rep.inconclusive("reopened tree differs from the model (C16 territory)".to_string());
+                continue;
+            }
+            rep.ev();
+            rep.stratum(format!("E1-after-reopen|{}", case.label));
+            let req = enc_prove_request(&case.secret, case.index as u64, &Fr::from(case.limit), &Fr::from(case.id), &case.ext, &case.signal);
+            let mut out = vec![];
+            match catch(|| pc.rln.generate_rln_proof(Cursor::new(req), &mut out).map_err(|e| e.to_string())) {
+                Ok(Ok(())) => {
+                    let root = pc.model.root();
+                    let bad = acceptance(&mut pc, &out, &case.signal, &root, &mut rng);
+                    if !bad.is_empty() {
+                        rep.violation("E1-after-reopen:not-accepted", json!({"case": case.label, "failed_calls": bad}));
+                    } else {
+                        rep.count("messages_accepted_after_reopen");
+                    }
+                }
+                Ok(Err(e)) => rep.violation("E1-after-reopen:err-on-valid-request", json!({"case": case.label, "index": case.index, "err": e})),
+                Err(p) => rep.violation(format!("E1-after-reopen:panic-on-valid-request:{}", p.file()), json!({"case": case.label, "panic": p.msg})),
+            }
+        }
+        let _ = std::fs::remove_dir_all(&base);
+    }
 }
